@@ -192,7 +192,7 @@ func run(r *core.Run) int {
 	}
 	r.Set("alphabet", alpha)
 	r.Set("singles_and_pairs_exhaustive", pairsEnd)
-	core.Parallel(len(jobs), func(i int) {
+	r.Parallel(len(jobs), func(i int) {
 		j := jobs[i]
 		sc := scenario(j.c, j.behs)
 		out := sc.Run()
